@@ -58,7 +58,22 @@ BUILTIN_METHODS[('Reader', 'read_event')] = reader_next
 BUILTIN_METHODS[('Reader', 'buffer_position')] = lambda m, r: r.f['bufpos']
 BUILTIN_METHODS[('Reader', 'config_mut')] = lambda m, r: (_ for _ in ()).throw(Unsupported('reader configuration is outside the event model'))
 BUILTIN_METHODS[('BytesStart', 'name')] = lambda m, b: b.f['name']
-BUILTIN_METHODS[('BytesStart', 'local_name')] = lambda m, b: (_ for _ in ()).throw(Unsupported('BytesStart::local_name'))
+def _local_name(m, b):
+    """QName::local_name / BytesStart::local_name: everything after the first ':' (quick_xml splits at the first colon)"""
+    nm = b.f['name'] if isinstance(b, RStruct) else b
+    v = m.cs(nm)
+    i = v.find(':')
+    return RBytes(v[i + 1:] if i >= 0 else v, nm.utf8, nm.tag)
+def _prefix(m, b):
+    nm = b.f['name'] if isinstance(b, RStruct) else b
+    v = m.cs(nm); i = v.find(':')
+    return Some(RBytes(v[:i], nm.utf8, nm.tag)) if i >= 0 else NONE()
+BUILTIN_METHODS[('BytesStart', 'local_name')] = _local_name
+BUILTIN_METHODS[('RBytes', 'local_name')] = _local_name
+BUILTIN_METHODS[('RBytes', 'prefix')] = _prefix
+BUILTIN_METHODS[('RBytes', 'into_inner')] = lambda m, b: b
+BUILTIN_METHODS[('RBytes', 'len')] = lambda m, b: len(m.cs(b).encode())
+BUILTIN_METHODS[('RBytes', 'is_empty')] = lambda m, b: m.eq_str(b.val, '')
 def _attributes(m, b):
     # the default iterator stops being useful after its first error (the parser returns there); items after a duplicate exist only for the unchecked view
     it = RIter(b.f['attrs'].l); it.attr_iter = True
